@@ -76,10 +76,15 @@ func c17Alphabet() []c17op {
 			{"hex-text-of-A(96)", []byte(hexs(a[:48]))}, {"HEX-TEXT-of-A(96)", []byte(strings.ToUpper(hexs(a[:48])))}, {"hex-text-of-A+LF(97)", []byte(hexs(a[:48]) + "\n")},
 			{"space+hex-text-of-A(97)", []byte(" " + hexs(a[:48]))}, {"0x+hex-text(98)", []byte("0x" + hexs(a[:48]))}, {"96-zero-bytes", make([]byte, 96)}, {"128-bytes", append(append([]byte{}, a...), b...)},
 			{"base64-text-of-A(64)", []byte(base64.StdEncoding.EncodeToString(a[:48]))},
+			// no digest at all: a nil slice (the zero-length digests above are empty windows of the caller's buffer, not nil)
+			{"nil", nil},
 		} {
 			idx, dv := idx, dv
 			ops = append(ops, c17op{name: fmt.Sprintf("digest(idx=%d,%s)", idx, dv.name), valid: false, index: idx, digest: dv.b,
 				call: func(t *world.TSM, _ *c17bufs) error {
+					if dv.b == nil {
+						return rtmr.ExtendDigestClient(t, idx, nil)
+					}
 					return rtmr.ExtendDigestClient(t, idx, append([]byte(nil), dv.b...))
 				}})
 		}
@@ -98,6 +103,12 @@ func c17Alphabet() []c17op {
 					return rtmr.ExtendDigestClient(t, idx, append([]byte(nil), dv.b...))
 				}})
 		}
+	}
+	// a nil event log (the empty logs below are empty windows of the caller's buffer, not nil)
+	for _, idx := range []int{0, 3} {
+		idx := idx
+		ops = append(ops, c17op{name: fmt.Sprintf("eventlog(idx=%d,hash=SHA-384,log=nil)", idx), valid: false, index: idx,
+			call: func(t *world.TSM, _ *c17bufs) error { return rtmr.ExtendEventLogClient(t, idx, crypto.SHA384, nil) }})
 	}
 	for _, idx := range []int{-1, 0, 1, 2, 3, 4} {
 		for _, h := range c17Hashes() {
